@@ -172,14 +172,26 @@ def d3(mod, run, w):
             # checked in its place
             hs = [i for i in f.calls() if mod.fn(i.get("callee") or "") is not None and mod.fn(i["callee"]).internal and any(c2.get("callee") == "getEntryByteOffset" for c2 in mod.fn(i["callee"]).calls())]
             direct = [a for a in list(B.accesses(f, ("arg", 0), "w")) + list(B.accesses(f, ("arg", 0), "r")) if not (a[0].op == "call" and a[0] in hs)]
+            mroot = 0
             if len(hs) == 1 and not direct:
-                h = hs[0]; fwd = all(h.ops[k]["k"] == "arg" and h.ops[k]["v"] == k for k in range(3))
+                h = hs[0]
+                def strip_(fx, o):
+                    while o["k"] == "inst" and fx.imap[o["v"]].op in ("bitcast", "zext", "sext", "trunc"): o = fx.imap[o["v"]].ops[0]
+                    return o
+                # which helper parameters receive the accessor's matrix, row and column (in whatever order the helper declares them)
+                pos = {}
+                for k in range(h["nargs"]):
+                    a = strip_(f, h.ops[k])
+                    if a["k"] == "arg" and a["v"] in (0, 1, 2) and a["v"] not in pos: pos[a["v"]] = k
+                hf = mod.fn(h["callee"]); hcalls = [i for i in hf.calls() if i.get("callee") == "getEntryByteOffset"]
+                fwd = len(pos) == 3 and len(hcalls) == 1 and all(strip_(hf, hcalls[0].ops[j])["k"] == "arg" and strip_(hf, hcalls[0].ops[j])["v"] == pos[j] for j in range(3))
                 run.check(fwd, "D3-accessor-forwards-cell", {"fn": name, "helper": h.get("callee")},
-                          Finding("D3-accessor-offset", name, "cell", "call:%s" % h.get("callee"), "%s does not hand its own matrix, row and column to %s" % (name, h.get("callee")), loc=loc(h)))
-                f = mod.fn(h["callee"]); fi = w.fi(f).prepare(); calls = [i for i in f.calls() if i.get("callee") == "getEntryByteOffset"]
+                          Finding("D3-accessor-offset", name, "cell", "call:%s" % h.get("callee"), "%s does not hand its own matrix, row and column to %s (or the helper does not pass them on to getEntryByteOffset)" % (name, h.get("callee")), loc=loc(h)))
+                f = hf; fi = w.fi(f).prepare(); calls = hcalls; mroot = pos.get(0, 0)
+        else: mroot = 0
         if len(calls) != 1: raise AnalysisBroken("%s: expected one getEntryByteOffset call" % name)
         offl = fi.lin({"k": "inst", "v": calls[0].id, "t": "i64"})
-        accs = list(B.accesses(f, ("arg", 0), "w")) + list(B.accesses(f, ("arg", 0), "r"))
+        accs = list(B.accesses(f, ("arg", mroot), "w")) + list(B.accesses(f, ("arg", mroot), "r"))
         accs = [a for a in accs if not (a[0].op == "call" and a[0].get("callee") == "getEntryByteOffset")]
         if not accs: raise AnalysisBroken("%s: no access to the matrix found" % name)
         for (i, kind, off, sz) in accs:
